@@ -23,7 +23,7 @@ class A(Adapter):
     serves = {"C01", "C04", "C05", "C06", "C10", "C11", "C12"}
     terminate_on_invalid = False
     max_steps = 32
-    ops = ("state", "step", "judge", "instance", "bounds")
+    ops = ("state", "step", "judge", "instance", "bounds", "spec")
     state_fields = ["node_types", "adj_matrix", "connected_nodes", "connected_nodes_index", "nodes_to_connect",
                     "node_edges", "positions", "position_index", "action_mask", "finished_agents", "step_count"]
 
@@ -107,6 +107,18 @@ class A(Adapter):
             perm = np.asarray(self._perm_fn[1](jnp.asarray(k)))
             self._perm_cache = (ck, [int(x) for x in perm])
         return {"perm": self._perm_cache[1]}
+
+    # ---- wave 4 (hook of the C12 sweep; MMST has no C09 sweep): declared specs vs the model's obsSpec / actionSpec (`mmst.spec`),
+    # the reset timestep, the observation arrays (`toNValue` layout), membership (`obs_in_spec` vs observation_spec.validate) and the
+    # invariant SpecInv on implementation states at reset, along play and on the terminal step (harness/wave3_routing.py; theorems
+    # mmst_obsSpec_generated, mmst_*_obs_valid, mmst_specInv_invariant)
+    def synthetic(self, ctx, cfg, env, runner, rng, drv):
+        import wave3_routing as w3
+
+        w3.check_specs(ctx, self, cfg, env, drv)
+        big = cfg.meta["nodes"] > 20
+        w3.check_reset_and_obs(ctx, self, cfg, env, runner, rng, drv, (1 if big else 2) if ctx.quick else 5,
+                               (8 if big else 14) if ctx.quick else 80, policies=("masked", "uniform"), extra="spec_inv")
 
     # ---- joint actions
     def flat_mask(self, env, s, obs):
